@@ -4,13 +4,14 @@ use crate::framework::{DynScenario, Erased};
 use std::sync::Arc;
 
 pub mod cache;
+pub mod corrupt;
 pub mod crash;
 pub mod kmt;
 pub mod lru;
 pub mod store;
 
 pub fn all() -> Vec<Box<dyn DynScenario>> {
-    vec![Box::new(Erased(Arc::new(lru::Lru))), Box::new(Erased(Arc::new(cache::Cache))), Box::new(Erased(Arc::new(kmt::Kmt))), Box::new(Erased(Arc::new(store::Store))), Box::new(Erased(Arc::new(crash::Crash)))]
+    vec![Box::new(Erased(Arc::new(lru::Lru))), Box::new(Erased(Arc::new(cache::Cache))), Box::new(Erased(Arc::new(kmt::Kmt))), Box::new(Erased(Arc::new(store::Store))), Box::new(Erased(Arc::new(crash::Crash))), Box::new(Erased(Arc::new(corrupt::Corrupt)))]
 }
 
 pub fn by_property(id: &str) -> Option<Box<dyn DynScenario>> {
